@@ -28,8 +28,11 @@ Proof.
   now apply thickness_once.
 Qed.
 
+(* the SET of einsum subscripts used (sorted, duplicate-free: the integration statement may be written once per
+   branch or once after the if/else), and the subscripts of every einsum defining the array that is summed over
+   the Gauss-point axis *)
 Theorem C09_integration_tokens_src :
-  einsums_src = ["ep,ep,pin->epn"; "en,pin->ep"; "ep,ep,pin->epn"] /\
+  einsums_src = ["en,pin->ep"; "ep,ep,pin->epn"] /\ integration_einsums_src = ["ep,ep,pin->epn"] /\
   rules_src = ["MatrixType.mass"] /\ point_div_src = "len(nodes)".
 Proof. repeat split; reflexivity. Qed.
 
